@@ -21,7 +21,6 @@ import (
 	"go.opentelemetry.io/collector/config/configretry"
 	"go.opentelemetry.io/collector/consumer/consumererror"
 	"go.opentelemetry.io/collector/exporter/exporterhelper"
-	"go.opentelemetry.io/collector/exporter/exportertest"
 	"go.opentelemetry.io/collector/pdata/plog"
 	"go.opentelemetry.io/collector/pdata/ptrace"
 	"go.opentelemetry.io/collector/verifharness/pitems"
@@ -74,7 +73,12 @@ type Script struct {
 	// ShutdownDeadlineUS > 0: Shutdown is called with a context that expires after this long (the drain may
 	// well take longer); 0 = context.Background().
 	ShutdownDeadlineUS int `json:"shutdown_deadline_us,omitempty"`
+	// StorageCloseFails: the storage client's Close returns an error (a storage fault at shutdown; persistent queue only).
+	// Shutdown then reports that error — and must still have stopped everything.
+	StorageCloseFails bool `json:"storage_close_fails,omitempty"`
 }
+
+var errStorageClose = errors.New("injected storage close failure")
 
 var (
 	errPerm  = errors.New("scripted permanent failure")
@@ -269,7 +273,7 @@ func runInner(s *Script) (bool, *vt.Finding) {
 	if s.Cfg.Persistent {
 		host = xh.HostWith(rec)
 	}
-	exp, err := xh.NewExporter(s.Cfg.Signal, exportertest.NewNopSettings(xh.Type), w.push, opts...)
+	exp, err := xh.NewExporter(s.Cfg.Signal, xh.NopSettings(), w.push, opts...)
 	if err != nil {
 		return false, vt.Failf("harness/new", "NewExporter: %v", err)
 	}
@@ -348,6 +352,9 @@ func runInner(s *Script) (bool, *vt.Finding) {
 			_ = exp.Consume(context.Background(), payload(s.Cfg.Signal, first, 2))
 		}()
 	}
+	if s.StorageCloseFails {
+		rec.SetCloseError(errStorageClose)
+	}
 	var sderr error
 	sctx, scancel := context.Background(), func() {}
 	if s.ShutdownDeadlineUS > 0 {
@@ -369,7 +376,10 @@ func runInner(s *Script) (bool, *vt.Finding) {
 		}
 	}
 	if sderr != nil && s.ShutdownDeadlineUS == 0 {
-		return true, vt.Failf("shutdown-error", "Shutdown returned %v", sderr)
+		if !(s.StorageCloseFails && s.Cfg.Persistent && errors.Is(sderr, errStorageClose)) {
+			return true, vt.Failf("shutdown-error", "Shutdown returned %v", sderr)
+		}
+		cS.Class("shutdown-reports-storage-close-error")
 	}
 	if inflightAtReturn != 0 {
 		return true, vt.Failf("export-in-flight-at-return", "%d export call(s) had not returned when Shutdown returned; cfg %+v", inflightAtReturn, s.Cfg)
@@ -448,6 +458,12 @@ func runInner(s *Script) (bool, *vt.Finding) {
 	// classes
 	if s.ShutdownDeadlineUS > 0 {
 		cS.Class("shutdown-with-deadline")
+	}
+	if s.Cfg.TimeoutMS > 0 && s.SlowUS > s.Cfg.TimeoutMS*1000 {
+		cS.Class("export-call-outlives-timeout")
+	}
+	if s.StorageCloseFails {
+		cS.Class("storage-close-fails")
 	}
 	if s.Cfg.NoQueue {
 		cS.Class("no-queue")
@@ -536,7 +552,7 @@ func gen(t *rapid.T) Script {
 			c.MaxElapsMS = 0
 		}
 	}
-	c.TimeoutMS = rapid.SampledFrom([]int{0, 0, 200}).Draw(t, "timeout")
+	c.TimeoutMS = rapid.SampledFrom([]int{0, 0, 200, 1}).Draw(t, "timeout")
 	n := rapid.IntRange(1, 12).Draw(t, "nreq")
 	total := 0
 	for i := 0; i < n; i++ {
@@ -558,6 +574,13 @@ func gen(t *rapid.T) Script {
 		s.TransN = rapid.SampledFrom([]int{1, 2, 3, 1000}).Draw(t, "trans_n")
 	}
 	s.SlowUS = rapid.SampledFrom([]int{0, 0, 200, 1500}).Draw(t, "slow")
+	if c.TimeoutMS == 1 {
+		// a backend call that ignores its context and outlives the timeout
+		s.SlowUS = rapid.SampledFrom([]int{1500, 6000, 12000}).Draw(t, "slow_beyond_timeout")
+	}
+	if c.Persistent {
+		s.StorageCloseFails = rapid.IntRange(0, 3).Draw(t, "storage_close_fails") == 0
+	}
 	s.WaitPush = rapid.IntRange(0, 3).Draw(t, "wait_push")
 	s.DelayUS = rapid.SampledFrom([]int{0, 0, 50, 300, 2000}).Draw(t, "delay")
 	s.Racers = rapid.SampledFrom([]int{0, 0, 0, 1, 3}).Draw(t, "racers")
